@@ -12,7 +12,9 @@ TECHNIQUE = ("Coq proofs of the round trip per data type class over the whole va
              "linear arithmetic, valid for every year) and of its composition with the PARAMS/ROW field codec for whole rows (induction over the "
              "column list from the package layer's params_roundtrip and C04_model_meets_spec) + model-vs-implementation correspondence and "
              "executable round-trip specification applied to the implementation's output, at value level and through the real packages")
-RULE = ("fn 1 = Bytes then GoValue of the produced bytes for (type, length, value): all 256 type codes with nil; every uint8/int8/int16/uint16 "
+RULE = ("fn 1 = Bytes then GoValue of the produced bytes for (type, length, value), plus a second Bytes call on the SAME Go value object and a rendering of "
+        "the object before/after (second outcome = first, object unchanged: third output component (1 1), compared exactly with the model and demanded by the "
+        "spec predicate on every case): all 256 type codes with nil; every uint8/int8/int16/uint16 "
         "value (INT1, INT2, UINT2; INTN/UINTN 8-bit exhaustive, 16-bit every 7th + boundaries); boundary (0, +-1, +-2^k, 2^k-1, min, max) and random "
         "int32/int64/uint32/uint64; float32/float64 bit patterns for every exponent x {0, 1, mid, max, random mantissa} x sign, NaN payloads, random; "
         "money over int64/int32 boundaries + random; DECN/NUMN for every precision 1..38 x scale 0..p with 0, +-1, +-10^k, +-(10^k-1), "
@@ -69,7 +71,8 @@ LEVEL_TEXT = ("Machine-checked theorems, for ALL values of each domain: C04_int_
               "not ending in U+0000), C04_date_roundtrip (every day of years 1..9999, any time part), C04_datetime_tick (every nanosecond of every day: < 1/300 s, "
               "exact on ticks, incl. the carry into the next day), C04_smalldatetime, C04_bigdatetime_us, C04_bigtime_us, C04_time_tick (with the saturating last "
               "half tick), C04_null, C04_null_decimal, C04_civil_inverse (every year), C04_ref_index_is_walk, and the summary C04_model_meets_spec: the model "
-              "satisfies the executable round-trip specification on the whole domain (Spec.in_domain) and for NULL of every nullable type. The executable specification (domains of Appendix C, "
+              "satisfies the executable round-trip specification on the whole domain (Spec.in_domain) and for NULL of every nullable type; C04_model_pure (the model's fn 1 output carries the observation 'second encoding = first, value object "
+              "unchanged' that the specification demands). The executable specification (domains of Appendix C, "
               "tolerance measured with an independent next_day calendar) is applied to every implementation output. "
               "Package leg: C04_pkg_roundtrip (for EVERY list of claimed columns, any mix of types, PARAMS or ROW: the package written for them is read back by the package decoder with the "
               "formats as context, consuming exactly the bytes written whatever follows; every field carries the status sent and the encoded value, NULL travels as zero length, and dec_value "
